@@ -5,6 +5,7 @@ id=$1; shift
 cd /verif
 cp known_findings.json /tmp/kf_main.json
 git show wip-$id:known_findings.json > /tmp/kf_theirs.json
+git show $(git merge-base HEAD wip-$id):known_findings.json > /tmp/kf_base.json
 if [ -n "$(git status --porcelain)" ]; then git add -A; git commit -qm "WIP before merging $id"; fi
 git merge --no-edit -X theirs wip-$id 2>&1 | tail -3
 if ! git merge-base --is-ancestor wip-$id HEAD; then echo "MERGE DID NOT HAPPEN"; exit 1; fi
@@ -12,12 +13,13 @@ if git status --short | grep -q '^UU\|^AA'; then echo "CONFLICTS"; git status --
 python3 - <<'PY'
 import json
 a=json.load(open('/tmp/kf_main.json')); b=json.load(open('/tmp/kf_theirs.json'))
+base={f['id']:f for f in json.load(open('/tmp/kf_base.json'))['findings']}
 ids=[f['id'] for f in a['findings']]
 for f in b['findings']:
     if f['id'] not in ids: a['findings'].append(f); ids.append(f['id'])
     else:
         k=ids.index(f['id'])
-        if a['findings'][k]!=f: print('known_findings: taking branch version of',f['id']); a['findings'][k]=f
+        if a['findings'][k]!=f and base.get(f['id'])!=f: print('known_findings: taking branch version of',f['id']); a['findings'][k]=f
 json.dump(a,open('/verif/known_findings.json','w'),indent=1)
 print('known findings:',len(ids))
 PY
